@@ -22,11 +22,6 @@ CONSTANTS K,        \* refinement depth bound
           RootSel,  \* "all" or one root kind
           KV        \* variants (deviations, dropped specials, unknown keys) are taken from states of depth <= KV; -1 = none
 
-(***************************************************************************)
-(* Pseudo type for a class reference, so envelopes can be roots.           *)
-(***************************************************************************)
-ClsT(c) == [kind |-> "cls", cls |-> c]
-
 Root(kind, name) == [kind |-> kind, name |-> name]
 RootSeq ==
     [i \in DOMAIN Structs |-> Root("structure", Structs[i].name)]
@@ -36,12 +31,6 @@ RootSeq ==
     \o [i \in DOMAIN Notifs |-> Root("notification", Notifs[i].method)]
 KindOK(r) == RootSel = "all" \/ RootSel = r.kind
 Roots == {RootSeq[i] : i \in {i \in DOMAIN RootSeq : i % NShards = Shard /\ KindOK(RootSeq[i])}}
-
-RootType(r) == CASE r.kind = "structure" -> [kind |-> "reference", name |-> r.name]
-                 [] r.kind = "alias" -> [kind |-> "reference", name |-> r.name]
-                 [] r.kind = "request" -> ClsT(ClsReq(r.name))
-                 [] r.kind = "response" -> ClsT(ClsResp(r.name))
-                 [] r.kind = "notification" -> ClsT(ClsNot(r.name))
 
 (***************************************************************************)
 (* Scalar alphabets (boundary values).                                      *)
@@ -106,9 +95,12 @@ Others(alpha, x) == {alpha[i] : i \in {i \in DOMAIN alpha : ~OEq(alpha[i], x)}}
 RECURSIVE Ref(_, _)
 RefInst(o) ==
     LET ps == PropsOf(o.cls) IN
+    \* an omittable property is never given the value null (null ~ absent there, DESIGN 4.2)
     UNION { IF ps[i].name \in DOMAIN o.p
-            THEN { [o EXCEPT !.p[ps[i].name] = c] : c \in Ref(o.p[ps[i].name], ps[i].type) }
-            ELSE { [o EXCEPT !.p = (ps[i].name :> m) @@ o.p] : m \in AltMins(ps[i].type) }
+            THEN { [o EXCEPT !.p[ps[i].name] = c] :
+                   c \in {c \in Ref(o.p[ps[i].name], ps[i].type) : ~Omittable(ps[i]) \/ Wire(c).k # "null"} }
+            ELSE { [o EXCEPT !.p = (ps[i].name :> m) @@ o.p] :
+                   m \in {m \in AltMins(ps[i].type) : ~Omittable(ps[i]) \/ Wire(m).k # "null"} }
           : i \in DOMAIN ps }
 RefSeq(o, elemT) ==
     (IF Len(o.a) < 2 THEN { [o EXCEPT !.a = Append(o.a, m)] : m \in AltMins(elemT) } ELSE {})
@@ -210,11 +202,12 @@ Refine == /\ svDepth < K /\ svVar.vk = "none"
           /\ UNCHANGED <<svRoot, svVar>>
 
 CanVary == svVar.vk = "none" /\ svDepth <= KV
+CanDeviate == CanVary /\ svRoot.kind = "structure"     \* C11 / C12 speak about structures
 Same == UNCHANGED <<svRoot, svDepth>>
 PropV(kind, name) == [vk |-> kind, name |-> name]
 
 DropRequired ==
-    /\ CanVary
+    /\ CanDeviate
     /\ \E i \in DOMAIN TopProps(svRoot) : LET p == TopProps(svRoot)[i] IN
           /\ Required(p) /\ ~SemNull(p.type) /\ p.name \in DOMAIN svObj.p
           /\ svObj' = [svObj EXCEPT !.p = [n \in DOMAIN svObj.p \ {p.name} |-> svObj.p[n]]]
@@ -223,7 +216,7 @@ DropRequired ==
     /\ Same
 
 IntValue ==
-    /\ CanVary
+    /\ CanDeviate
     /\ \E i \in DOMAIN TopProps(svRoot) : LET p == TopProps(svRoot)[i] IN
           /\ p.type.kind = "base" /\ p.type.name \in {"integer", "uinteger"}
           /\ \E b \in DOMAIN IntBoundary(p.type.name) : LET node == IntBoundary(p.type.name)[b] IN
@@ -233,7 +226,7 @@ IntValue ==
     /\ Same
 
 BadEnumValue ==
-    /\ CanVary
+    /\ CanDeviate
     /\ \E i \in DOMAIN TopProps(svRoot) : LET p == TopProps(svRoot)[i] IN
           \E bad \in {b \in BadEnum(p.type) : ~Valid(b, p.type)} :
                 /\ svW' = WithKey(svW, p.name, bad)
@@ -242,9 +235,9 @@ BadEnumValue ==
     /\ Same
 
 OtherLiteral ==
-    /\ CanVary
+    /\ CanDeviate
     /\ \E i \in DOMAIN TopProps(svRoot) : LET p == TopProps(svRoot)[i] IN
-          /\ IsLit(p) /\ svRoot.kind = "structure"
+          /\ IsLit(p)
           /\ svObj' = [svObj EXCEPT !.p = (p.name :> JStr("x-other-literal")) @@ svObj.p]
           /\ svW' = WithKey(svW, p.name, JStr("x-other-literal"))
           /\ svVar' = PropV("lit", p.name)
@@ -289,6 +282,7 @@ DeviationIsInvalid == svVar.vk \in {"dropreq", "enum", "lit"} => ~Valid(svW, Roo
 TolerantStaysValid == svVar.vk \in {"dropspecial", "unk"} => Valid(svW, RootType(svRoot))
 
 \* printing: one JSON line per distinct state (worker-safe: a single PrintT of one string)
-EmitState == IF Emit THEN PrintT("@S " \o ToJson([root |-> svRoot, o |-> svObj, w |-> svW, var |-> svVar, d |-> svDepth]))
+EmitState == IF Emit THEN PrintT("@S " \o ToJson([root |-> svRoot, o |-> svObj, w |-> svW, var |-> svVar, d |-> svDepth,
+                                                  bw |-> IF svVar.vk = "unk" THEN Wire(svObj) ELSE JNull]))
              ELSE TRUE
 =============================================================================
